@@ -96,6 +96,24 @@ claim('C11',
       'effect/purity analysis: global-write detection, mutable-default escape, JIT option lattice, seed dominance',
       'DESIGN.md §4 C11')
 
+claim('C01',
+      'Static analysis of chunked evaluation for the 25 public ops with a dask entry (numpy and dask paths resolved '
+      'through the backend tables, delegating helpers and functools.partial): H0 the function mapped over blocks is '
+      'the numpy path\'s own kernel (for pipeline ops: shared per-block kernels and agreeing literal constants); H1 '
+      'every map_overlap halo depth is >= the kernel\'s read footprint per axis, compared symbolically (footprints '
+      'come from the kernel abstract interpreter: 3x3 stencils, kernel.shape[i]//2 windows, clipped slices) so a '
+      'halo one short, swapped axes or shape[0] used twice is refuted for all kernel shapes at once; H2 boundary is '
+      'NaN or none; H3 map_blocks kernels read only at the output cell and never reduce over a block; H4 global '
+      'statistics are reduced over the whole lazy array outside block functions and no lazy value reaches an eager '
+      'sink (compute, float/int/bool, arange/range bounds, branching); H6 generator paths return floating arrays '
+      'independent of the template dtype. Holds for every chunking because it is a property of the partition '
+      'parameters and kernels, not of sampled chunk layouts. Not decided: rounding of differently ordered global '
+      'reductions, scheduler timing (purity of block functions is C11-S6), chunks smaller than the halo.',
+      'Trusted: dask map_overlap/map_blocks semantics (halo of given depth, NaN boundary, block alignment of '
+      'same-chunked arrays), np.gradient = central differences, numba compiles kernels as written. GPU paths excluded.',
+      'dask-site resolution + symbolic footprint-vs-halo comparison + lazy-value taint to eager sinks',
+      'DESIGN.md §4 C01')
+
 ALL = ['C%02d' % i for i in range(1, 20)]
 
 
